@@ -358,12 +358,12 @@ theorem lbn_zero {i : Nat} {vS v : Int} (hS : LB sc cl x y .none i 0 vS) (h2 : v
   have := hS xs ys ops c hxs hys hsc nofun nofun
   omega
 
-theorem cc_row00 : CC sc cl x y 0 0 (row00 cl x) := by
+theorem cc_row00 : CC sc cl x y 0 0 (row00 cl x y) := by
   refine ⟨lb_none_00, lb_ins_row0 0 (Nat.zero_le _) _, lb_del_col0 0 (Nat.zero_le _) _, ?_⟩
   exact lbn_zero (lb_none_00 (sc := sc) (cl := cl) (x := x) (y := y)) (by simp [row00])
 
 theorem cc_step0 (hge : sc.ge ≤ 0) (i : Nat) (hi : i + 1 ≤ x.length) (r : Row) :
-    CC sc cl x y 0 (i + 1) (step0 sc cl x (i + 1) r) := by
+    CC sc cl x y 0 (i + 1) (step0 sc cl x y (i + 1) r) := by
   rw [step0_eq]
   have hI := lb_iv0 (cl := cl) (y := y) hge i hi
   have hS : LB sc cl x y .none (i + 1) 0
